@@ -42,6 +42,15 @@ def permute_policy(r, p):
 
 def bias_world(r, W, anp):
     """inputs whose rendering depends on several map-ordered collections at once"""
+    if anp and r.random() < 0.5 and W['workloads']:
+        # the ports of one (B)ANP rule are a set: a named port that some destination does not define, written among numbered ports
+        free = [p for p in (3, 4, 6, 7, 20) if p not in [a['priority'] for a in W['anps']]]
+        d = r.choice(['ingress', 'egress'])
+        ports = [{'namedPort': r.choice(gen.NAMES + ['nosuch'])}, {'portNumber': {'port': r.choice(gen.PORTS), 'protocol': 'TCP'}},
+                 {'portRange': {'start': 1, 'end': 100, 'protocol': r.choice(['TCP', 'UDP'])}}]
+        rule = {'name': 'rmix', 'action': r.choice(['Deny', 'Deny', 'Allow']), 'from' if d == 'ingress' else 'to': [{'namespaces': {}}], 'ports': ports}
+        if free:
+            W['anps'].insert(r.randrange(len(W['anps']) + 1), {'name': 'anpmix', 'priority': free[0], 'subject': {'namespaces': {}}, d: [rule]})
     if not anp and r.random() < 0.35 and W['workloads']:
         # several named ports of one protocol towards peers that are not in the input: they stay names in the exposure output
         w = r.choice(W['workloads'])
@@ -115,11 +124,14 @@ def bias_world(r, W, anp):
         for nsx in nss_[:2]:
             W['netpols'].append({'ns': nsx, 'name': 'samepeer', 'podSelector': {}, 'policyTypes': ['Ingress' if d == 'ingress' else 'Egress'],
                                  d: [{key: [{'podSelector': {'matchLabels': {'role': 'client'}}}], 'ports': [{'protocol': 'TCP', 'port': 8080}]}]})
-    if r.random() < 0.3:
+    if r.random() < 0.4:
         # a Route and an Ingress that certainly yield {ingress-controller} lines: own namespace without policies
         W['workloads'].append({'kind': 'Deployment', 'ns': 'nsr', 'name': 'wr', 'labels': {'app': 'r'}, 'replicas': 1, 'owner': None, 'omit_ns': False,
-                               'ports': [{'port': 8080, 'proto': 'TCP', 'name': 'web'}, {'port': 9090, 'proto': 'TCP', 'name': ''}]})
-        motif = [{'kind': 'Service', 'ns': 'nsr', 'name': 'svcr', 'selector': {'app': 'r'}, 'ports': [{'name': 'p', 'port': 80, 'targetPort': 8080}, {'name': 'q', 'port': 81, 'targetPort': 9090}]},
+                               'ports': [{'port': 8080, 'proto': 'TCP', 'name': 'web'}, {'port': 9090, 'proto': 'TCP', 'name': ''}, {'port': 7070, 'proto': 'TCP', 'name': ''}]})
+        motif = [{'kind': 'Service', 'ns': 'nsr', 'name': 'svcr', 'selector': {'app': 'r'}, 'ports': [{'name': 'p', 'port': 80, 'targetPort': 8080}, {'name': 'q', 'port': 81, 'targetPort': 9090},
+                                                                                                      {'name': 's', 'port': 82, 'targetPort': 7070}]},
+                 # (two objects of one kind towards one workload, the ports of one containing the other's: they are met in map order)
+                 {'kind': 'Ingress', 'ns': 'nsr', 'name': 'ingr2', 'default': None, 'rules': [[{'svc': 'svcr', 'pname': 'q', 'pnum': 0}, {'svc': 'svcr', 'pname': 's', 'pnum': 0}]]},
                  {'kind': 'Route', 'ns': 'nsr', 'name': 'rtr', 'port': 8080, 'to': ['Service', 'svcr'], 'alts': []},
                  {'kind': 'Ingress', 'ns': 'nsr', 'name': 'ingr', 'default': None, 'rules': [[{'svc': 'svcr', 'pname': 'q', 'pnum': 0}]]}]
         W['others'] = (W.get('others') or []) + [c10.manifest(o) for o in motif]
@@ -188,6 +200,14 @@ def variant(r, W, how):
     W2 = copy.deepcopy(W)
     if how == 'permute-policies':
         W2['netpols'] = [permute_policy(r, p) for p in W2['netpols']]
+        # (Baseline)AdminNetworkPolicy: the rules of a policy are ordered, the peers and the ports of one rule are not
+        for a in list(W2.get('anps') or []) + ([W2['banp']] if W2.get('banp') else []):
+            for d, key in (('ingress', 'from'), ('egress', 'to')):
+                for rule in a.get(d) or []:
+                    if rule.get(key):
+                        r.shuffle(rule[key])
+                    if rule.get('ports'):
+                        r.shuffle(rule['ports'])
     return W2
 
 
